@@ -107,6 +107,10 @@ pub struct Decoded {
     pub reply_pkts: Vec<usize>,
     pub n_pkts: usize,
     pub n_msgs: usize,
+    /// how many logical messages the expected replies consumed
+    pub consumed_msgs: usize,
+    /// the messages after the last expected reply (only with allow_trailing)
+    pub trailing: Vec<Vec<u8>>,
 }
 
 /// Decode the complete server output of a conversation. `n_cmds` = how many commands the server
@@ -151,6 +155,8 @@ pub fn decode_all(out: &[u8], conv: &Conv, last_seq: &[u8], n_cmds: usize, allow
         reply_pkts,
         n_pkts: pkts.len(),
         n_msgs: msgs.len(),
+        consumed_msgs: mc.i,
+        trailing: msgs[mc.i..].iter().map(|m| m.data.clone()).collect(),
     })
 }
 
@@ -205,4 +211,14 @@ pub fn complete_replies(flushed: &[u8], conv: &Conv) -> usize {
         n += 1;
     }
     n
+}
+
+/// After a command that must be refused without reaching the shim, the server may say goodbye
+/// with one ERR packet (or say nothing): anything else is stray output.
+pub fn trailing_is_at_most_one_err(d: &Decoded) -> Result<(), String> {
+    match d.trailing.len() {
+        0 => Ok(()),
+        1 if d.trailing[0].first() == Some(&0xff) => parse_err(&d.trailing[0]).map(|_| ()),
+        n => Err(format!("{} message(s) after the last served command, first starts {:02x?}", n, &d.trailing[0][..d.trailing[0].len().min(8)])),
+    }
 }
